@@ -16,6 +16,7 @@ pub fn def() -> PropDef {
         nontrivial,
         functional: false,
         rule: "all trees over &&, ||, ?: of depth <= 1 and a quarter of depth 2 (quick) / all of depth <= 2 (thorough) over the operand kinds (true, false, division by zero, overflow, missing key, undeclared name, failing host function, call-logging host functions returning true/false), random trees to depth 4, each also wrapped as the body of map/filter/all/exists macros; the predicate re-evaluates the tree with an independent reference interpreter of the short-circuit rules and requires the same outcome and the same ordered call log; non-trivial = at least one operand is skipped by the rules; distinct = distinct source text",
+        post: super::no_post,
         exhaustive_note: "depth <= 1 enumeration is complete in the quick tier (depth 2 over every 4th subtree); depth <= 2 is complete in the thorough tier",
     }
 }
